@@ -5,9 +5,11 @@ Case kinds (all JSON-serialisable):
   {'kind': 'parse',  'text': str, 'via_file': bool, 'result': r}   from_bench_string / from_bench_file
   {'kind': 'layout', 'items': [...], 'fin': bool, 'text': str, 'result': r}
   {'kind': 'eq',     'a': dump, 'b': dump, 'result': bool}         Circuit.__eq__
+  {'kind': 'okb',    'circuit': dump, 'result': bool}              hypotheses of the round trip (oracle's guard)
 r = ('ok', dump) | ('err', kind).
 """
 import itertools
+import locale
 import os
 import pathlib
 import shutil
@@ -54,6 +56,24 @@ def ident_label(rng, used, kind_hist=None):
                 kind_hist(kind)
             return l
     raise RuntimeError('label space exhausted')
+
+
+UNICODE = ['\u0131nput_x', 'outp\u00fct', '\u00b5', '\u00e91', 'vdd\u00df', '\u017fum', 'INPUT\u0130', 'x\u2028y', 'a\x0bb', 'n\x85',
+           '\u03bb', '\u4e2d', 'buff\U0001f600']
+
+
+def unicode_variant(rng, dump):
+    """the same circuit with some labels outside ASCII (direct oracle only: the model is about ASCII text)"""
+    keys = [k for k, _, _ in dump['gates']]
+    if not keys:
+        return None
+    mapping = {}
+    pool = [u for u in UNICODE if u not in keys]
+    rng.shuffle(pool)
+    for k in rng.sample(keys, min(len(keys), rng.randint(1, 3))):
+        if pool:
+            mapping[k] = pool.pop()
+    return relabel(dump, mapping)
 
 
 def relabel(dump, mapping):
@@ -400,6 +420,8 @@ def case_term(case):
     if k == 'layout':
         return (f'({ct.lst(item_term(i) for i in case["items"])}, {ct.boolean(case["fin"])}, '
                 f'{text_term(case["text"])}, {res_term(case["result"])})')
+    if k == 'okb':
+        return f'({circuit_term(case["circuit"])}, {ct.boolean(case["result"])})'
     if k == 'eq':
         return f'({circuit_term(case["a"])}, {circuit_term(case["b"])}, {ct.boolean(case["result"])})'
     raise ValueError(k)
@@ -408,7 +430,8 @@ def case_term(case):
 CHECK = {'format': ('check_format_case', 'circuit * string'),
          'parse': ('check_parse_case', 'string * bool * res circuit'),
          'layout': ('check_layout_case', 'list item * bool * string * res circuit'),
-         'eq': ('check_eq_case', 'circuit * circuit * bool')}
+         'eq': ('check_eq_case', 'circuit * circuit * bool'),
+         'okb': ('check_okb_case', 'circuit * bool')}
 
 
 # ------------------------------------------------------------------ the direct oracle
@@ -444,6 +467,12 @@ def oracle_roundtrip(dump):
     if not (d == c):
         what = describe_difference(ct.dump_circuit(d), dump)
         return f'roundtrip-differs: from_bench_string(format_circuit(c)) != c: {what}'
+    if '\r' in text:
+        return None         # a text-mode read turns "\r" into a newline: outside the file statement (labels_no_cr)
+    try:
+        text.encode(locale.getpreferredencoding(False))
+    except UnicodeError:
+        return None         # not representable in the locale's encoding: write_text cannot store it
     with TempDir() as tmp:
         p = os.path.join(tmp, 'sub', 'c.bench')
         try:
